@@ -2,5 +2,6 @@
 mod common;
 use libfuzzer_sys::fuzz_target;
 fuzz_target!(|data: &[u8]| {
-    common::drive("C03", data, gpa_verif::props::c03::strategy(), gpa_verif::props::c03::eval);
+    let mut w = common::Words::new(data);
+    common::judge("C03", gpa_verif::props::c03::case_from_words(&mut w), gpa_verif::props::c03::eval);
 });
